@@ -18,7 +18,8 @@ EXPLANATION = (
     " ADDED LATER: R7 both parsers accept the same shapes of comma-separated lists (empty, trailing comma, no comma after the last item, never two items without a comma), decided by reachability between token tests and item-parser calls on the MIR; R5 also: the same largest number of reference steps; R8 literal delimiters are stripped exactly once in the XML dump."
     " ROUNDS 5-6: R9-FLAGS-FLOW: the flag set stored in the tree derives from the flags parameter and from no set constructor; R10-SPAN-END: the last token event before an EndOfSpan is built is a cursor() read (forward dataflow on the MIR)."
     " ROUND 7: R4 also: the four `&` counting loops of both parsers accept the same largest number of ampersands (sibling agreement)."
-    " ROUND 9: R11-RESERVATIONS-DO-NOT-NEST (call graph, both generations): nothing reachable from the code that runs under a token reservation takes a reservation itself (its release would reset the outer window to the whole rest of the input).")
+    " ROUND 9: R11-RESERVATIONS-DO-NOT-NEST (call graph, both generations): nothing reachable from the code that runs under a token reservation takes a reservation itself (its release would reset the outer window to the whole rest of the input)."
+    " ROUND 10: R12-CHAIN-CONTINUES: in parse_rest_of_bitwise_expression the operators that start a chain are the operators that continue it.")
 
 PX = "delta::parser::parse_tree::parse_tree_xml::print_xml"
 PN = "delta::parser::parse_node::ParseNode"
